@@ -85,6 +85,21 @@ func TestDescribe(t *testing.T) {
 					return n
 				}())
 		}
+	case "service-topology":
+		var s TopoScript
+		_, _ = vt.LoadReplay(p, &s)
+		for _, pp := range s.Pipes {
+			t.Logf("  pipeline %-12s receivers=%v exporters=%v", pp.id(), pp.Recv, pp.Exp)
+		}
+		for _, o := range s.objects() {
+			b := s.Comps[o]
+			if len(b.StartReports)+len(b.ShutdownReports) > 0 || b.ShutdownErr {
+				t.Logf("  node %-22s Start[%s] Shutdown[%s] err=%v", o, lettersString(b.StartReports), lettersString(b.ShutdownReports), b.ShutdownErr)
+			}
+		}
+		for _, op := range s.Runtime {
+			t.Logf("  runtime: %s reports %s", op.Comp, letterName[op.Letter%nLetters])
+		}
 	case "service-watcher":
 		var s SvcScript
 		_, _ = vt.LoadReplay(p, &s)
